@@ -207,6 +207,12 @@ AUTH = [
                                    c.add(b"dXNlcg==\r\n"), c.add(b"\r\n"))),
     ("AUTH-cancel", lambda c, rng: (c.add(b"AUTH LOGIN\r\n", AUTH="ok", SASL=[hx(b"User:") + "!0!ok"]), c.add(b"*\r\n"))),
     ("AUTH-bad-resp", lambda c, rng: (c.add(b"AUTH LOGIN\r\n", AUTH="ok", SASL=["-!0!ok"]), c.add(b"!!!!\r\n"))),
+    # a mechanism whose last step returns data together with success (SCRAM's server signature): the exchange is over, the
+    # next line — a cancel token, something that is not base64 — is a command line like any other
+    ("AUTH-done-with-data", lambda c, rng: (c.add(b"AUTH LOGIN\r\n", AUTH="ok", SASL=[hx(b"User:") + "!0!ok", hx(b"v=c2VydmVyc2ln") + "!1!ok"]),
+                                            c.add(b"dXNlcg==\r\n"), c.add(rng.choice([b"*\r\n", b"!!!!\r\n", b"\r\n", b"NOOP\r\n"])))),
+    ("AUTH-ir-done-with-data", lambda c, rng: (c.add(b"AUTH PLAIN AGFiAHB3\r\n", AUTH="ok", SASL=hx(b"v=sig") + "!1!ok"),
+                                               c.add(rng.choice([b"*\r\n", b"!!!!\r\n", b"NOOP\r\n"])))),
 ]
 
 TLSL = [
